@@ -31,6 +31,10 @@ func c09Scenarios() []ConcScenario {
 				{Kind: k, ConnID: "B", User: "ub", IP: "10.0.0.2", Host: "hb.example:3389", StopAt: "ta", Script: []string{"idle", "drop"}}}},
 		)
 	}
+	// D8: two legacy tunnels with back-to-back traffic on connections that deliver one write per read
+	out = append(out, ConcScenario{Name: "D8-two-legacy-back-to-back", Deviation: true, Segmented: true, RoundRobin: true, Plans: []TunnelPlan{
+		{Kind: "legacy", ConnID: "A", User: "ua", IP: "10.0.0.1", Host: "ha.example:3389", Script: []string{"data:[A-1]", "data:[A-2]", "data:[A-3]", "idle"}},
+		{Kind: "legacy", ConnID: "B", User: "ub", IP: "10.0.0.2", Host: "hb.example:3389", Script: []string{"data:[B-1]", "data:[B-2]", "data:[B-3]", "idle"}}}})
 	out = append(out,
 		ConcScenario{Name: "D5-legacy-in-out-concurrent", Plans: []TunnelPlan{
 			{Kind: "legacy", ConnID: "A", User: "ua", IP: "10.0.0.1", Host: "ha.example:3389", SplitLegacy: true, StopAt: "hs", Script: []string{"drop"}}}},
@@ -65,6 +69,15 @@ func c09Check(sc ConcScenario) func(res *ConcResult, races []RaceReport) (string
 			if t.StreamErr != "" {
 				v = append(v, vsched.Violation{Sig: "C09/corrupt-client-stream/" + sc.Name, Detail: fmt.Sprintf("tunnel %d: %s", i, t.StreamErr)})
 			}
+			var sent []byte
+			for _, op := range t.Plan.Script {
+				if strings.HasPrefix(op, "data:") {
+					sent = append(sent, op[5:]...)
+				}
+			}
+			if !bytes.HasPrefix(sent, t.BackendGot) {
+				v = append(v, vsched.Violation{Sig: "C09/host-stream-not-a-prefix-of-what-its-client-sent/" + sc.Name, Detail: fmt.Sprintf("tunnel %d: host received %q, its client sent %q", i, t.BackendGot, sent)})
+			}
 			want := bytes.Join(t.Plan.Chunks, nil)
 			if !bytes.HasPrefix(want, t.ClientData) {
 				v = append(v, vsched.Violation{Sig: "C09/relay-not-a-prefix/" + sc.Name, Detail: fmt.Sprintf("tunnel %d: client received %q, host sent %q", i, t.ClientData, want)})
@@ -94,7 +107,7 @@ func c09(env *Env, rep *Report) {
 		names = append(names, s.Name)
 	}
 	rep.Rule = "all thread schedules (client(s), real HTTP handler(s), the gateway's relay goroutine, backend(s)) of the drivers " + strings.Join(names, ", ") +
-		" up to the preemption bound, on the real handlers over in-memory connections; oracle per schedule: no race report from the race runtime (race build, hand-off invisible to it), " +
+		" and D7 (a connection-file download concurrent with a tunnel's channel creation, host list shared as main.go shares it), D8 (two legacy tunnels, back-to-back traffic, one write per read, lockstep default schedule) up to the preemption / deviation bound, on the real handlers over in-memory connections; oracle per schedule: no race report from the race runtime (race build, hand-off invisible to it), " +
 		"client byte stream decodes into whole well-formed packets whose data payloads are a prefix of what the host sent, no panic in any thread. distinct_nontrivial = distinct per-schedule observations."
 	rep.Assumptions = append(rep.Assumptions,
 		"scheduling points are the blocking operations and every Write/Close on a connection, dial, spawn, lock/unlock; a single Write is atomic (as in Go's network layer)",
@@ -107,6 +120,22 @@ func c09(env *Env, rep *Report) {
 	rep.Bounds = map[string]any{"preemption_bound": bound, "race_build": vsched.RaceEnabled}
 	if env.Replay != nil {
 		name, _ := env.Replay["scenario"].(string)
+		if name == "D7-download-vs-channel-create" {
+			var prefix []int
+			if cs, ok := env.Replay["choices"].([]any); ok {
+				for _, c := range cs {
+					if f, ok := c.(float64); ok {
+						prefix = append(prefix, int(f))
+					}
+				}
+			}
+			r := c09WebRun(prefix, rl)
+			fmt.Println("outcome:", r.Outcome)
+			for _, v := range r.Violations {
+				rep.violate(v.Sig, v.Detail, env.Replay)
+			}
+			return
+		}
 		for _, sc := range scs {
 			if sc.Name == name {
 				replayConc(rep, sc, env.Replay, rl, c09Check(sc))
@@ -126,6 +155,9 @@ func c09(env *Env, rep *Report) {
 			}
 		}
 		exploreConc(env, rep, sc, b, rl, c09Check(sc))
+	}
+	if env.Part == "" || strings.Contains("D7-download-vs-channel-create", env.Part) {
+		c09Web(env, rep, rl, bound)
 	}
 	rep.add("race_reports_without_stack", int64(raceUnattributed))
 }
